@@ -547,10 +547,20 @@ impl Expr for ComparisonExpr {
                 let bytes: Box<[u8]> = bytes.into();
 
                 if bytes.is_empty() {
+                    #[cfg(cloudflare_wirefilter_verif)]
+                    crate::verif_hooks::record_contains_searcher(
+                        crate::verif_hooks::ContainsSearcherKind::Empty,
+                        0,
+                    );
                     return search!(EmptySearcher);
                 }
 
                 if let [byte] = *bytes {
+                    #[cfg(cloudflare_wirefilter_verif)]
+                    crate::verif_hooks::record_contains_searcher(
+                        crate::verif_hooks::ContainsSearcherKind::Memchr,
+                        1,
+                    );
                     return search!(MemchrSearcher::new(byte));
                 }
 
@@ -592,6 +602,9 @@ impl Expr for ComparisonExpr {
                     }
 
                     let position = rng().random_range(1..bytes.len());
+                    #[cfg(cloudflare_wirefilter_verif)]
+                    let position =
+                        crate::verif_hooks::choose_contains_anchor(false, bytes.len(), position);
                     return unsafe {
                         match bytes.len() {
                             2 => search!(ArraySearcher(Avx2Searcher::with_position(
@@ -677,12 +690,20 @@ impl Expr for ComparisonExpr {
                     }
 
                     let position = rng().random_range(1..bytes.len());
+                    #[cfg(cloudflare_wirefilter_verif)]
+                    let position =
+                        crate::verif_hooks::choose_contains_anchor(true, bytes.len(), position);
 
                     return unsafe {
                         search!(WasmSearcher(Wasm32Searcher::with_position(bytes, position)))
                     };
                 }
 
+                #[cfg(cloudflare_wirefilter_verif)]
+                crate::verif_hooks::record_contains_searcher(
+                    crate::verif_hooks::ContainsSearcherKind::Memmem,
+                    bytes.len(),
+                );
                 search!(MemmemSearcher::new(bytes))
             }
             ComparisonOpExpr::Matches(regex) => lhs.compile_with(compiler, false, regex),
